@@ -66,12 +66,19 @@ let rec print_sx (x : W.sx) : unit =
 
 let () =
   let name = str_of_string Sys.argv.(1) in
+  let db =
+    if Array.length Sys.argv > 2 then begin
+      let ic = open_in Sys.argv.(2) in
+      let l = input_line ic in
+      close_in ic;
+      W.db_or_empty (parse_line l)
+    end else [] in
   (try
     while true do
       let line = input_line stdin in
       (try
         let a = parse_line line in
-        print_sx (W.run_entry name a)
+        print_sx (W.run_entry db name a)
       with
       | Stack_overflow -> Buffer.add_string buf "(s100.114.105.118.101.114.45.115.116.97.99.107)"
       | Failure m -> Buffer.add_string buf "(s100.114.105.118.101.114.45.102.97.105.108)");
